@@ -320,7 +320,16 @@ func c15(p *P) {
 		}
 		gt := callsTo(gc, false, "iface:Backend.GetTipset")
 		if len(gt) == 1 {
-			k := phiEdgeCanons(gt[0].ArgValues()[2])
+			var k []string
+			for _, e := range phiEdgeCanons(gt[0].ArgValues()[2]) {
+				// a helper returning (key, entries, err) renders its key as a nested phi whose error paths yield nil: flatten, drop nil
+				for _, a := range splitAlternatives(e) {
+					if a != "nil" {
+						k = append(k, a)
+					}
+				}
+			}
+			k = uniq(k)
 			ok := false
 			for _, e := range k {
 				if strings.HasPrefix(e, "gpbft.ECChain.Head(certstore.Store.Get($0.certStore, $1, ($2 - $0.manifest.CommitteeLookback))") && strings.HasSuffix(e, ".Key") {
